@@ -11,9 +11,9 @@ for id in "${ids[@]}"; do
   verdict=$(python3 -c "import json;print(json.load(open('$d/meta.json'))['check_verdict'])")
   P=$d/patch.diff; [ -f $d/patch.rebased.diff ] && P=$d/patch.rebased.diff
   if [ -n "$(git -C $REPO status --porcelain)" ]; then echo "$id: repository copy not clean, stopping"; exit 2; fi
-  if ! git -C $REPO apply $PWD/$P 2>/dev/null; then
-    if ! (cd $REPO && patch -p1 --fuzz=3 -s < $OLDPWD/$P >/dev/null 2>&1); then echo "$id $prop PATCH-DOES-NOT-APPLY"; git -C $REPO checkout -- .; git -C $REPO clean -fdq; bad=1; continue; fi
-  fi
+  # (no fuzzy fallback: `patch --fuzz` once moved a hunk into another branch and silently changed the mutant;
+  # a change that no longer applies gets a hand-made patch.rebased.diff)
+  if ! git -C $REPO apply $PWD/$P 2>/dev/null; then echo "$id $prop PATCH-DOES-NOT-APPLY"; git -C $REPO checkout -- .; git -C $REPO clean -fdq; bad=1; continue; fi
   out=$(./check $prop --tier quick 2>&1); rc=$?
   git -C $REPO checkout -- .; git -C $REPO clean -fdq
   cls=$(echo "$out" | grep -m1 "^  class=" | grep -o "class=[^ ]* key=[^ ]*")
